@@ -1,6 +1,8 @@
 """C07 - add, subtract, multiply with optimal sizing are exact and never overflow."""
 from . import funcs, flags, ops
 
+from . import routes, fresh, flags, sizes, conv, dtype, carriers, funcs, ops, strings, pipeline, widths
+
 EXPLANATION = (
     "R1 the optimal-size terms packed by add/sub/mul normalise (value numbering, modulo operand well-formedness n_int = n_word - n_frac - [signed]) "
     "to the documented growth rules for every format pair: signed = [x.signed or y.signed], n_int = max(x.n_int, y.n_int)+1, n_frac = max(n_frac) / "
@@ -23,7 +25,9 @@ def run(ck):
     nf = {k: v[2] for k, v in funcs.GROWTH.items()}
     funcs.alignment_exponents_nonneg(ck, "C07.R5", res, ("add", "sub", "mul"), nf)
     flags.sticky_and_ownership(ck, "C07.R6")
-    from . import sizes
     sizes.init_size_relation(ck, "C06.R1")             # results are built from (signed, n_int, n_frac): the word follows from them
     sizes.no_size_rejection(ck, "C07.R7")
     ops.operator_siblings(ck, "C08.R4", only=("__add__", "__sub__", "__rsub__", "__mul__"))
+    sizes.resize_rules(ck, {"nint": "C02.R3"})        # optimal sizes read x.n_int: it must be current after every resize
+    carriers.machine_carrier(ck, "C18.R5")
+    routes.numpy_dispatch_transparent(ck, "C15.R5")
